@@ -73,8 +73,9 @@ func (f *faultyReader) ReadStartingWithUser(ctx context.Context, store string, f
 // cancelling thread, other workers) between the moment the read is issued and the moment its result is back.
 type slowReader struct {
 	storage.RelationshipTupleReader
-	k, n            int // hold the k-th read (0 = none)
-	issued, release chan int
+	k, n    int // hold the k-th read (0 = none)
+	release chan int
+	cancel  func()
 }
 
 // bufferedIter: an iterator whose rows are already in memory keeps yielding after the request context was
@@ -97,7 +98,17 @@ func (f *slowReader) ReadStartingWithUser(ctx context.Context, store string, fil
 	}
 	f.n++
 	if f.k > 0 && f.n == f.k {
-		vrt.Send(f.issued, 1) // rendezvous with the helper that cancels the request
+		// The helpers are spawned HERE so that they are the youngest threads: in the default schedule (lowest
+		// thread id first) the cancellation arrives when every worker is blocked and the read is released
+		// when the teardown that follows has quiesced; every earlier point for either event is an
+		// alternative at a blocking point (no preemption needed).
+		tick := vrt.MakeChan[int](0)
+		vrt.GoDaemon(func() {
+			f.cancel()
+			vrt.Recv(tick)
+			vrt.Send(f.release, 1)
+		})
+		vrt.GoDaemon(func() { vrt.Send(tick, 1) })
 		vrt.Recv(f.release)
 	}
 	vrt.Point("store-read-returned")
@@ -282,7 +293,7 @@ func scenario(p Params) e1.Scenario {
 			}
 			var held *slowReader
 			if p.Cancel || p.CancelInRead > 0 {
-				held = &slowReader{RelationshipTupleReader: rd, k: p.CancelInRead, issued: vrt.MakeChan[int](0), release: vrt.MakeChan[int](0)}
+				held = &slowReader{RelationshipTupleReader: rd, k: p.CancelInRead, release: vrt.MakeChan[int](0), cancel: cancel}
 				rd = held
 			}
 			reader := pipeline.NewValidatingStore(rd, storeID, pipeline.WithStoreValidator(validator))
@@ -302,20 +313,7 @@ func scenario(p Params) e1.Scenario {
 					cancel()
 				})
 			}
-			if p.CancelInRead > 0 {
-				// helper threads (daemons: a run that makes fewer than k reads never meets them). H1 cancels once
-				// read k is in flight and releases it after H2's tick; H2 is the youngest thread, so in the default
-				// schedule its tick comes when everything else is blocked (the read returns into a torn-down
-				// pipeline); every earlier release point is an alternative at a blocking point (no preemption).
-				tick := vrt.MakeChan[int](0)
-				vrt.GoDaemon(func() {
-					vrt.Recv(held.issued)
-					cancel()
-					vrt.Recv(tick)
-					vrt.Send(held.release, 1)
-				})
-				vrt.GoDaemon(func() { vrt.Send(tick, 1) })
-			}
+			_ = held
 			for {
 				v, ok := pl.Recv(ctx)
 				if !ok {
@@ -329,6 +327,9 @@ func scenario(p Params) e1.Scenario {
 			perr = pl.Err()
 			pl.Close()
 			closed = true
+			if e := pl.Err(); perr == nil && e != nil {
+				perr = e // an error raised while tearing down (e.g. a recovered panic of work still in flight)
+			}
 		}
 		check := func(x *vrt.Execution) (string, string, string, uint64) {
 			g := append([]string{}, got...)
